@@ -52,8 +52,11 @@ Notation "' p <- r ;; k" := (bind r (fun p => k)) (at level 61, p pattern, r at 
 (* result of re.compile on the regular expression belonging to an atom *)
 Inductive cres := COk | CReError | COverflow | COther (tag : str).
 (* truth of an atom on one environment under the documented semantics; [through_scalar] marks a
-   nested key whose path runs through a value that is not a container (finding D14b) *)
-Record tv := { tv_val : bool; tv_through_scalar : bool }.
+   nested key whose path runs through a value that is not a container (finding D14b);
+   [tv_fault] = the environment itself fails at this atom (the data object's get() or the value's
+   __str__ raises the named exception): the documented behaviour is that the exception is the
+   result of that call *)
+Record tv := { tv_val : bool; tv_through_scalar : bool; tv_fault : option str }.
 
 Record variants := {
   overflow_escapes : bool;     (* behaviour before 86538e9: OverflowError of re.compile not mapped *)
@@ -332,7 +335,10 @@ Section Eval.
 
   Definition atom_val (a : atom) (i : nat) : val :=
     let t := truth a i in
-    if lookup_escapes V && tv_through_scalar t then VExc (lit "TypeError") else VB (tv_val t).
+    match tv_fault t with
+    | Some tag => VExc tag
+    | None => if lookup_escapes V && tv_through_scalar t then VExc (lit "TypeError") else VB (tv_val t)
+    end.
 
   Fixpoint eval (e : expr) (i : nat) : val :=
     match e with
